@@ -468,7 +468,7 @@ func c18ValidTree(rt *rapid.T) (tree.Tree, map[string]string) {
 
 func TestC18_FaultEnumeration(t *testing.T) {
 	c := harness.New(t, "C18", "fault-enumeration",
-		"for generated valid directories (names plain or with percent signs; page + layout + component + independent page + three more components used in a branch of an @if / @elseif / @else, in the body or the @else of an @each / @for, or in the @else of a loop nested in a loop pass): every file x {deleted, truncated at every byte prefix, replaced by garbage (lexeme soup), dangling symbolic link, directory in its place}. a template directory that does not exist, is misspelled or leads through a regular file; NewTemplate must return without panic or hang either (nil, error) or (template, nil). It must fail with an error naming the damaged file's path when that file is syntactically wrong by itself (decided by parsing it alone) or unreadable, and naming the layout/component (by name or path) when such a file is absent. Non-trivial: the fault is in a layout or component. Every (file, operator, prefix) of each generated tree is enumerated.")
+		"for generated valid directories (names plain or with percent signs; page + layout + component + independent page + three more components used in a branch of an @if / @elseif / @else, in the body or the @else of an @each / @for, or in the @else of a loop nested in a loop pass): every file x {deleted, truncated at every byte prefix, replaced by garbage (lexeme soup), replaced by a component use whose slots are never closed followed by each directive in turn, dangling symbolic link, directory in its place}. a template directory that does not exist, is misspelled or leads through a regular file; NewTemplate must return without panic or hang either (nil, error) or (template, nil). It must fail with an error naming the damaged file's path when that file is syntactically wrong by itself (decided by parsing it alone) or unreadable, and naming the layout/component (by name or path) when such a file is absent. Non-trivial: the fault is in a layout or component. Every (file, operator, prefix) of each generated tree is enumerated.")
 	defer c.Finish()
 	alpha := c08Alphabet()
 	runRapid(t, c, 12, 180, func(rt *rapid.T) {
@@ -525,6 +525,15 @@ func TestC18_FaultEnumeration(t *testing.T) {
 				tr[p] = tree.Entry{Content: content[:cut]}
 				bad := !parsesAlone(content[:cut])
 				run(faultCase{Tree: tr, Faulty: p, Op: fmt.Sprintf("truncated@%d", cut), MustFail: bad, Mention: []string{p}})
+			}
+			// a component use with a slot that is never closed, followed by each directive in turn: whatever token the parser
+			// stumbles over, it reports it
+			for _, f := range []string{"@dump(1)", "@if(true)y@end", "@each(i in [1])y@end", "@for(i = 0; i < 1; i++)y@end", "{{ 1 }}", "@use(\"~x\")", "@insert(\"a\", 1)", "@reserve(\"r\")", "@break", "@continue",
+				"@breakIf(true)", "@continueIf(true)", "@else", "@elseif(true)", "@slot", "@component(\"comp\")", "text", "{{-- c --}}", ""} {
+				src := "@component(\"comp\")\n@slot(\"s\")x@end\n" + f + "\n"
+				tr := base.Clone()
+				tr[p] = tree.Entry{Content: src}
+				run(faultCase{Tree: tr, Faulty: p, Op: "unclosed-use-then-directive", MustFail: !parsesAlone(src), Mention: []string{p}})
 			}
 			// garbage
 			for g := 0; g < 6; g++ {
